@@ -166,6 +166,11 @@ enum_functional = enum.Enum("enum_functional", "RED GREEN")
 color_member = Color.{enum_first}
 dep_const_copy = DEP_CONST
 module_alias = depmod
+# module objects *inside* a type (Instance of types.ModuleType carrying extra_attrs), not a module alias
+module_in_list = [depmod]
+module_in_tuple = (depmod, 1)
+module_in_dict = {{"m": depmod}}
+def module_returner(flag: bool = False): return [depmod] if flag else []
 uid = UserId(5)
 any_explicit: Any = 1
 from_untyped_import = nosuchmodule_c11.thing
